@@ -144,6 +144,20 @@ def record_fn(_xv=("int", None), **kw):
     return result_of(kind, kw)
 
 
+def failing_at(_xv=("int", None), **kw):
+    """Like the recording function (no log), but raises FlakyError at the one
+    setting written (canonically) in the side file _xv[1]."""
+    kind, targetfile = _xv
+    try:
+        with open(targetfile) as f:
+            target = f.read()
+    except FileNotFoundError:
+        target = None
+    if target is not None and canon_kw(kw) == target:
+        raise FlakyError(f"told to fail at {target}")
+    return result_of(kind, kw)
+
+
 def read_log(logfile):
     if logfile is None:
         return [canon_kw(kw) for kw in LOG]
